@@ -380,8 +380,15 @@ class C05(Prop):
                  "(forall s : list N, ~ In RPanic (decode_fn s)) /\\ "
                  "(forall (cap : cap_t) (s : list N) (k : nat), ~ In (Some RPanic) (di_extra cap k (di_new s))) /\\ "
                  "(forall (cap : cap_t) (kind : skind) (evs : list sev) (calls : list (meth * target)), "
-                 "Forall (fun c => snd c = TBytes) calls -> forallb (fun c => negb (call_panics c)) (sr_calls cap calls (rd_new kind evs)) = true)")]
-    level_text = ("Theorem C05_total (Coq, closed): every panic site of the transport code (checked arithmetic, indexing, asserts, "
+                 "Forall (fun c => snd c = TBytes) calls -> forallb (fun c => negb (call_panics c)) (sr_calls cap calls (rd_new kind evs)) = true)"),
+                ("C05_readers",
+                 "forall (cap : cap_t) (kind : skind) (evs : list sev) (calls : list (meth * target)), "
+                 "Forall (fun e => match e with SByte b => b < 256 | _ => True end) evs -> lenN evs < 4294967296 -> "
+                 "forallb (fun c => negb (match c with | CItem IPanic => true "
+                 "| CItem (IEvents l) => existsb (fun x => match x with SPanic => true | _ => false end) l | _ => false end)) "
+                 "(sr_calls cap calls (rd_new kind evs)) = true")]
+    level_text = ("Theorems C05_total, C05_readers (Coq, closed; C05_readers: no SmlReader call panics for any target type incl. File and "
+                  "Parser, via a payload-length invariant of the decoder and C06). C05_total: every panic site of the transport code (checked arithmetic, indexing, asserts, "
                   "borrow guard, fuel) is an explicit output value of the model and is proved unreachable for all histories, capacities, "
                   "payloads, sources and fault schedules; termination by structural recursion. Correspondence/oracle in debug (overflow "
                   "checks) and release incl. 2^16..2^17+ noise runs.")
@@ -621,6 +628,15 @@ class C14(Prop):
             elif r < 0.75:
                 cutp = s[:rng.randint(0, len(s))]
                 pre = ",".join(x for x in ["x" + hx(cutp) if cutp else "", rng.choice(["F", "R", "N"])] if x)
+            elif r < 0.87:
+                # a transmission that ends in an invalid escape sequence / a rejected end sequence: the error event is
+                # the last event of the prefix, whatever bytes the rejected sequence consisted of
+                body = gen.payload(rng, rng.randint(0, 12))
+                if rng.random() < 0.6:
+                    tail = bytes([rng.choice([0x02, 0x1c, 0x00, 0x55, 0x01])] + [rng.choice([0x1b, 0x1b, 0x01, 0x00, rng.getrandbits(8)]) for _ in range(3)])
+                else:
+                    tail = bytes([0x1a, rng.choice([0, 1, 2, 3, 4, 7]), rng.getrandbits(8), rng.choice([0x1b, rng.getrandbits(8)])])
+                pre = "x" + hx(gen.START + gen.esc(body) + bytes([0x1b] * 4) + tail)
             else:
                 p = gen.payload(rng, rng.randint(5, 30))
                 pre = "x" + hx(gen.frame(p))
@@ -1417,8 +1433,8 @@ class C06(ParserProp):
             if c.tag == "one-byte-tlf" and rng.random() < 0.9:
                 continue
             out.append(Case("palloc " + c.line.split(" ", 1)[1], "alloc:" + c.tag.split(":")[0], dict(d=c.meta["d"], alloc=True)))
-        out.append(Case("parse 7607000b06a5d3c562006200726307017701010171ff8f8f8f8f8f8f0f", "d5d6-witness", dict(d=b"")))
-        out.append(Case("palloc 7607000b06a5d3c562006200726307017701010171ff8f8f8f8f8f8f0f", "d5d6-witness", dict(d=bytes(31), alloc=True)))
+        out.append(Case("parse 7607000b06a5d3c562006200726307017701010101ff8f8f8f8f8f8f0f", "d5d6-witness", dict(d=b"")))
+        out.append(Case("palloc 7607000b06a5d3c562006200726307017701010101ff8f8f8f8f8f8f0f", "d5d6-witness", dict(d=bytes(31), alloc=True)))
         return out
 
     def project(self, case, out):
@@ -1512,8 +1528,8 @@ class C09(ParserProp):
     def cases(self, tier, rng):
         n = 3000 if tier == "quick" else 50000
         out = sml_mutant_cases(rng, n) + sml_valid_cases(rng, n // 3) + real_cases(rng, 500 if tier == "quick" else 5000)
-        out.append(Case("parse 7607000b06a5d3c562006200726307017701010171ff8f8f8f8f8f8f0f", "d5-witness"))
-        out.append(Case("parse 7607000b06a5d3c562006200726307017701010171ff8f8f8f8f8f8f0e", "d5-witness"))
+        out.append(Case("parse 7607000b06a5d3c562006200726307017701010101ff8f8f8f8f8f8f0f", "d5-witness"))
+        out.append(Case("parse 7607000b06a5d3c562006200726307017701010101ff8f8f8f8f8f8f0e", "d5-witness"))
         return out
 
     def nontrivial(self, case, out):
